@@ -334,6 +334,95 @@ def emit() -> str:
     srep_txt = ast.unparse(srep)
     rep_to_requester = "dst_ip_address=arp_reply.target_ip_address" in srep_txt
 
+    # --- host side: SessionManager.resolve_outbound_transmission_details, unicast branch, TRANSLATED statement by statement.
+    # The decision "destination's own MAC or the default gateway's" must be a function of the interfaces (subnet + enabled) alone;
+    # the ARP cache is consulted for the destination only INSIDE the on-link test, and for the gateway otherwise.
+    rotd = find_method(class_def(parse("simulator/system/core/session_manager.py"), "SessionManager"), "resolve_outbound_transmission_details")
+    bc_if = [x for x in rotd.body if isinstance(x, ast.If) and ast.unparse(x.test) == "isinstance(dst_ip_address, IPv4Network)"]
+    if len(bc_if) != 1 or not bc_if[0].orelse:
+        raise ValueError("resolve_outbound_transmission_details: broadcast / unicast split not found")
+    uni = bc_if[0].orelse
+    A = "self.software_manager.arp."
+
+    def tr_test(e) -> str:
+        if isinstance(e, ast.BoolOp) and isinstance(e.op, ast.And):
+            return "(" + " && ".join(tr_test(v) for v in e.values) + ")"
+        t = ast.unparse(e)
+        if t == "dst_ip_address in network_interface.ip_network":
+            return "inNet"
+        if t == "network_interface.enabled":
+            return "enabled"
+        raise ValueError(f"resolve_outbound_transmission_details: unknown term in the on-link test: {t}")
+
+    def tr_stmt(x) -> str:
+        t = ast.unparse(x)
+        table = {
+            "use_default_gateway = True": "gw := true",
+            "use_default_gateway = False": "gw := false",
+            f"dst_mac_address = {A}get_arp_cache_mac_address(dst_ip_address)": "mac := arpMac dst",
+            f"outbound_network_interface = {A}get_arp_cache_network_interface(dst_ip_address)": "nic := arpIfc dst",
+            f"dst_mac_address = {A}get_default_gateway_mac_address()": "mac := arpMac gateway",
+            f"outbound_network_interface = {A}get_default_gateway_network_interface()": "nic := arpIfc gateway",
+            "break": "break",
+        }
+        if t in table:
+            return table[t]
+        if isinstance(x, ast.For) and ast.unparse(x.iter) == "self.node.network_interfaces.values()" and ast.unparse(x.target) == "network_interface" and not x.orelse:
+            return "for nic: [" + "; ".join(tr_stmt(y) for y in x.body) + "]"
+        if isinstance(x, ast.If) and not x.orelse:
+            tt = ast.unparse(x.test)
+            cond = {"dst_mac_address": "mac?", "use_default_gateway": "gw?"}.get(tt) or ("onLink " + tr_test(x.test))
+            return f"if {cond}: [" + "; ".join(tr_stmt(y) for y in x.body) + "]"
+        raise ValueError(f"resolve_outbound_transmission_details (unicast branch): statement not in the translation table: {t[:120]}")
+    host_steps = [tr_stmt(x) for x in uni if not (isinstance(x, ast.Expr) and isinstance(x.value, ast.Constant))]
+    onlink = None
+    for x in ast.walk(bc_if[0]):
+        if isinstance(x, ast.If) and x in [y for f in uni if isinstance(f, ast.For) for y in f.body]:
+            onlink = tr_test(x.test)
+    if onlink is None:
+        raise ValueError("resolve_outbound_transmission_details: on-link test not found")
+    hn_tree = parse("simulator/network/hardware/nodes/host/host_node.py")
+    harp = class_def(hn_tree, "HostARP")
+    gw_only = True
+    for name, getter in (("get_default_gateway_mac_address", "self.get_arp_cache_mac_address"),
+                         ("get_default_gateway_network_interface", "self.get_arp_cache_network_interface")):
+        fn = find_method(harp, name)
+        calls = [(ast.unparse(c.func), [ast.unparse(a) for a in c.args]) for c in ast.walk(fn) if isinstance(c, ast.Call)]
+        if calls != [(getter, ["self.software_manager.node.config.default_gateway"])]:
+            gw_only = False
+    if not gw_only:
+        raise ValueError("HostARP.get_default_gateway_*: expected exactly one cache look-up, of the configured default gateway")
+
+    # --- the receive path of an application payload: SessionManager.receive_frame hands the frame's destination port and IP
+    # protocol to SoftwareManager.receive_payload_from_session_manager, which looks the receiver up under exactly that key; the
+    # session of an inbound frame is keyed by the frame's SOURCE address, and a send through a session goes to that address
+    sm_cls = class_def(parse("simulator/system/core/session_manager.py"), "SessionManager")
+    rf = find_method(sm_cls, "receive_frame")
+    rf_calls = [c for c in ast.walk(rf) if isinstance(c, ast.Call) and ast.unparse(c.func) == "self.software_manager.receive_payload_from_session_manager"]
+    if len(rf_calls) != 1:
+        raise ValueError("SessionManager.receive_frame: expected exactly one hand-over to the software manager")
+    kw = {k.arg: ast.unparse(k.value) for k in rf_calls[0].keywords}
+    if kw.get("port") != "dst_port" or kw.get("protocol") != "frame.ip.protocol" or kw.get("frame") != "frame":
+        raise ValueError(f"SessionManager.receive_frame: unexpected hand-over arguments {kw}")
+    dp = sorted(ast.unparse(x.value) for x in ast.walk(rf) if isinstance(x, ast.Assign) and ast.unparse(x.targets[0]) == "dst_port")
+    if dp != ["None", "PORT_LOOKUP['NONE']", "frame.tcp.dst_port", "frame.udp.dst_port"]:
+        raise ValueError(f"SessionManager.receive_frame: dst_port is taken from {dp}")
+    swm = find_method(class_def(parse("simulator/system/core/software_manager.py"), "SoftwareManager"), "receive_payload_from_session_manager")
+    mr = [ast.unparse(x.value) for x in ast.walk(swm) if isinstance(x, ast.Assign) and ast.unparse(x.targets[0]) == "main_receiver"]
+    if mr != ["self.port_protocol_mapping.get((port, protocol), None)"]:
+        raise ValueError(f"receive_payload_from_session_manager: main receiver is {mr}")
+    gsk = find_method(sm_cls, "_get_session_key")
+    wia = sorted({ast.unparse(x.value) for x in ast.walk(gsk) if isinstance(x, ast.Assign) and ast.unparse(x.targets[0]) == "with_ip_address"})
+    if wia != ["frame.ip.dst_ip_address", "frame.ip.src_ip_address"]:
+        raise ValueError(f"_get_session_key: with_ip_address is taken from {wia}")
+    first_wia = next(x for x in gsk.body if isinstance(x, ast.Assign) and ast.unparse(x.targets[0]) == "with_ip_address")
+    if ast.unparse(first_wia.value) != "frame.ip.src_ip_address":
+        raise ValueError("_get_session_key: the default (inbound) peer address is not the frame's source address")
+    sess_dst = [ast.unparse(x.value) for x in ast.walk(rotd) if isinstance(x, ast.Assign) and ast.unparse(x.targets[0]) == "dst_ip_address"
+                and "session" in ast.unparse(x.value)]
+    if sess_dst != ["session.with_ip_address"]:
+        raise ValueError(f"resolve_outbound_transmission_details: a session send goes to {sess_dst}")
+
     def lst(xs):
         return "[" + ", ".join(f'("{n}", {k})' for n, k in xs) + "]"
     return f"""namespace Primaite.Gen.Forward
@@ -356,6 +445,17 @@ def routerResolvesOutboundWithoutArp : Bool := {"true" if (base_none and router_
 def repliesStartNothing : Bool := {"true" if (reply_learns and echo_counts) else "false"}
 /-- an ARP request carries the (ip, mac) pair of the interface it leaves by; the reply is addressed to the request's sender -/
 def arpPairsGenuine : Bool := {"true" if (req_fields and rep_to_requester) else "false"}
+/-- SessionManager.resolve_outbound_transmission_details, unicast branch, statement by statement (strict translation table:
+any other statement — e.g. a look-up of the destination in the ARP cache before the subnet test — raises) -/
+def hostUnicastSteps : List String := [{", ".join('"%s"' % x for x in host_steps)}]
+/-- the on-link test of its loop, translated from `{onlink}` -/
+def hostOnLink (inNet enabled : Bool) : Bool := {onlink}
+/-- HostARP.get_default_gateway_mac_address / _network_interface look up exactly the configured default gateway -/
+def hostGatewayGettersReadGatewayOnly : Bool := true
+/-- an inbound payload is handed to the software `port_protocol_mapping.get((frame's destination port, frame's IP protocol))`
+finds (SessionManager.receive_frame → SoftwareManager.receive_payload_from_session_manager); the session of an inbound frame is
+keyed by its SOURCE address and a send through a session goes to `session.with_ip_address`: replies go to the request's source -/
+def appReceiverByPortProtocolReplyToSource : Bool := true
 /-- `IPPacket.ttl` default -/
 def defaultTtl : Int := {ttl}
 /-- `Frame.decrement_ttl`: `self.ip.ttl -= k` -/
